@@ -1,96 +1,7 @@
 (* Driver for the extracted model: reads one case per line, prints one result per line.
    Numbers travel as hexadecimal with an optional leading '-'; byte strings as hex, "-" when empty. *)
 open Model
-
-let rec pos_of_int n = if n = 1 then XH else if n land 1 = 0 then XO (pos_of_int (n lsr 1)) else XI (pos_of_int (n lsr 1))
-let z_of_int n = if n = 0 then Z0 else if n > 0 then Zpos (pos_of_int n) else Zneg (pos_of_int (-n))
-let z16 = z_of_int 16
-let z_of_hex s =
-  let neg = String.length s > 0 && s.[0] = '-' in
-  let s = if neg then String.sub s 1 (String.length s - 1) else s in
-  let acc = ref Z0 in
-  String.iter (fun c ->
-    let d = match c with '0'..'9' -> Char.code c - 48 | 'a'..'f' -> Char.code c - 87 | 'A'..'F' -> Char.code c - 55
-                       | _ -> failwith ("bad hex " ^ s) in
-    acc := Z.add (Z.mul !acc z16) (z_of_int d)) s;
-  if neg then Z.opp !acc else !acc
-let rec bits_of_pos p = match p with XH -> [1] | XO q -> 0 :: bits_of_pos q | XI q -> 1 :: bits_of_pos q
-let hex_of_pos p =
-  let bits = bits_of_pos p in
-  let rec go bits = match bits with
-    | [] -> []
-    | a :: b :: c :: d :: r -> (a + 2*b + 4*c + 8*d) :: go r
-    | l -> [List.fold_right (fun x acc -> x + 2*acc) l 0] in
-  let ds = List.rev (go bits) in
-  String.concat "" (List.map (fun d -> String.make 1 "0123456789abcdef".[d]) ds)
-let hex_of_z z = match z with Z0 -> "0" | Zpos p -> hex_of_pos p | Zneg p -> "-" ^ hex_of_pos p
-let rec int_of_pos p = match p with XH -> 1 | XO q -> 2 * int_of_pos q | XI q -> 2 * int_of_pos q + 1
-let int_of_z z = match z with Z0 -> 0 | Zpos p -> int_of_pos p | Zneg p -> - (int_of_pos p)
-let rec int_of_nat n = match n with O -> 0 | S m -> 1 + int_of_nat m
-let rec nat_of_int n = if n <= 0 then O else S (nat_of_int (n - 1))
-
-let bytes_of_hex s =
-  if s = "-" then [] else begin
-    let n = String.length s / 2 in
-    List.init n (fun i -> z_of_int (int_of_string ("0x" ^ String.sub s (2*i) 2)))
-  end
-let hex_of_bytes bs =
-  if bs = [] then "-" else String.concat "" (List.map (fun b -> Printf.sprintf "%02x" (int_of_z b land 255)) bs)
-
-let runes_of_string s = if s = "-" then [] else List.map z_of_hex (String.split_on_char ',' s)
-let string_of_runes rs = if rs = [] then "-" else String.concat "," (List.map hex_of_z rs)
-
-let rec print_hval b (h : hval) =
-  let names rs = if rs = [] then "-" else String.concat "," (List.map hex_of_z rs) in
-  match h with
-  | HNull -> Buffer.add_string b "N"
-  | HBool true -> Buffer.add_string b "T"
-  | HBool false -> Buffer.add_string b "F"
-  | HInt z -> Buffer.add_string b ("I" ^ hex_of_z z)
-  | HLong z -> Buffer.add_string b ("L" ^ hex_of_z z)
-  | HDouble z -> Buffer.add_string b (if is_nan64 z then "Dnan" else "D" ^ hex_of_z z)
-  | HDate z -> Buffer.add_string b ("d" ^ hex_of_z z)
-  | HString rs -> Buffer.add_string b ("S(" ^ names rs ^ ")")
-  | HBinary bs -> Buffer.add_string b ("B(" ^ hex_of_bytes bs ^ ")")
-  | HRef z -> Buffer.add_string b ("R" ^ hex_of_z z)
-  | HList (ty, items) ->
-    Buffer.add_string b "l["; (match ty with Some t -> Buffer.add_string b (names t) | None -> Buffer.add_string b "~");
-    Buffer.add_string b "](";
-    List.iteri (fun i it -> if i > 0 then Buffer.add_char b ' '; print_hval b it) items;
-    Buffer.add_string b ")"
-  | HMap (ty, es) ->
-    Buffer.add_string b "m["; (match ty with Some t -> Buffer.add_string b (names t) | None -> Buffer.add_string b "~");
-    Buffer.add_string b "](";
-    List.iteri (fun i (k, v) -> if i > 0 then Buffer.add_char b ' '; print_hval b k; Buffer.add_char b ' '; print_hval b v) es;
-    Buffer.add_string b ")"
-  | HObject (cls, fs) ->
-    Buffer.add_string b ("o[" ^ names cls ^ "](");
-    List.iteri (fun i (n, v) -> if i > 0 then Buffer.add_char b ' '; Buffer.add_string b (names n ^ "="); print_hval b v) fs;
-    Buffer.add_string b ")"
-let hval_str h = let b = Buffer.create 256 in print_hval b h; Buffer.contents b
-
-(* successive values on one stream, sharing the parser state *)
-let parse_seq bs =
-  let rec go st bs acc =
-    if bs = [] then "ok " ^ String.concat " ; " (List.rev acc) else
-    match hparse st bs with
-    | Ok ((v, r), st') -> go st' r (hval_str v :: acc)
-    | Err _ -> "err after " ^ string_of_int (List.length acc)
-    | Panic -> "panic" | Fuel -> "fuel" in
-  go pstate0 bs []
-
-let res_str f r = match r with
-  | Ok a -> f a
-  | Err _ -> "err"
-  | Panic -> "panic"
-  | Fuel -> "fuel"
-
-let kind_of_string s = match s with
-  | "int" -> KInt | "int8" -> KInt8 | "int16" -> KInt16 | "int32" -> KInt32 | "int64" -> KInt64
-  | "uint" -> KUint | "uint8" -> KUint8 | "uint16" -> KUint16 | "uint32" -> KUint32 | "uint64" -> KUint64
-  | _ -> failwith ("kind " ^ s)
-
-let num_rest (v, r) = Printf.sprintf "ok %s %d" (hex_of_z v) (List.length r)
+open Util
 
 let handle line =
   match String.split_on_char ' ' line with
